@@ -71,7 +71,7 @@ def read_client_conf():
         'tpm': Platform().default_tpm_scheme()
     }
     if path:
-        parser = ConfigParser()
+        parser = ConfigParser(interpolation=None)  # Values are taken as written ('%' is an ordinary character)
         text = '[DEFAULT]\n'
         with open(path) as f:
             text += f.read()
